@@ -63,6 +63,8 @@ def main():
             return Sym("%sn/%sd" % (name, name))
         if cls == "s":
             return Stream([0.5, 0.25])
+        if cls in ("n2", "p3", "h"):        # concrete numerals (code may compare coefficients with <, abs, ...)
+            return {"n2": -2, "p3": 3, "h": 0.5}[cls]
         raise ValueError(cls)
     out = []
     for sh in req["shapes"]:
